@@ -734,6 +734,42 @@ def rule_A_READFAIL(ctx, repo, cache):
         raise AnalysisError('instance count below confirmed minimum: %d mapping operations examined for escaping read failures (< 20)' % n)
 
 
+def rule_A_GLOBROOT(ctx, repo):
+    """A-GLOBROOT: a directory listing by glob pattern treats the *whole* expression as a pattern.  The archive's own location is data, not pattern:
+    it reaches glob() / iglob() only through glob.escape() (pox.walk takes root and patterns separately and is safe).  Otherwise an archive whose path
+    contains `[`, `]`, `*` or `?` lists nothing - or the entries of a sibling directory - while stores and lookups by key go to the real directory."""
+    m = repo.mod('_archives')
+    n = 0
+    for node in ast.walk(m.tree):
+        if not isinstance(node, ast.Call):
+            continue
+        f = node.func
+        nm = f.id if isinstance(f, ast.Name) else f.attr if isinstance(f, ast.Attribute) else ''
+        origin = m.imports.get(nm, '') if isinstance(f, ast.Name) else (m.imports.get(f.value.id, f.value.id) + '.' + nm if isinstance(f, ast.Attribute) and isinstance(f.value, ast.Name) else '')
+        if origin not in ('glob.glob', 'glob.iglob'):
+            continue
+        n += 1
+        arg = node.args[0] if node.args else None
+        escaped = set()
+        for x in ast.walk(arg) if arg is not None else []:
+            if isinstance(x, ast.Call):
+                g = x.func
+                gn = g.id if isinstance(g, ast.Name) else g.attr if isinstance(g, ast.Attribute) else ''
+                if gn == 'escape':
+                    escaped |= set(id(y) for y in ast.walk(x))
+        raw = [x for x in (ast.walk(arg) if arg is not None else []) if id(x) not in escaped and
+               (isinstance(x, ast.Subscript) or (isinstance(x, ast.Name) and x.id not in m.imports and x.id not in m.consts and x.id not in ('os',)) or
+                (isinstance(x, ast.Attribute) and isinstance(x.value, ast.Name) and x.value.id == 'self'))]
+        ok = not raw
+        ctx.ob('A-GLOBROOT', '%s:%d %s' % (m.rel, node.lineno, unparse(node)[:50]), ok)
+        if not ok:
+            ctx.fail('A-GLOBROOT', '%s:%d' % (m.rel, node.lineno), 'archive location used as a glob pattern',
+                     'the listing `%s` puts the archive\'s own path (%s) into the glob expression without glob.escape(): for an archive directory whose path contains '
+                     '[ ] * or ? the pattern does not match the directory itself - len(), keys(), items(), ==, popitem() and copy() see an empty archive (or a sibling\'s '
+                     'entries) while __setitem__ / __getitem__ / `in` use the real directory' % (unparse(node)[:70], unparse(raw[0])[:40]), '%s:%d' % (m.rel, node.lineno))
+    ctx.ob('A-GLOBROOT', 'glob listings in klepto/_archives.py examined', True, n=max(1, n))
+
+
 GLOBAL_MUTATORS = ('update', 'setdefault', 'append', 'add', 'pop', 'clear', 'extend', 'remove', 'discard', 'popitem', 'insert', 'appendleft')
 
 
